@@ -334,3 +334,30 @@ CHECKS["C28"] = dict(
     bounds="formulas over three atoms from {x<c, x<=c, Eq, Ne, x>c, Contains(x, Interval), Contains(x, FiniteSet)} with symbolic integer constants |c|<=1 (2): And, Or, Not, Xor, Nand, Nor, Xnor of 2-3 atoms and three nested shapes; truth compared at a symbolic half-integer value of x; piecewise with two symbolic conditions",
     outside=["opaque boolean symbols as atoms", "atoms on two different symbols"],
 )
+
+CHECKS["C38"] = dict(
+    src="C38.cpp", level="model_checking",
+    entries=[dict(name="harness_c38", quick={"npoints": 3, "maxd": 2, "X": 20, "B": 2}, thorough={"npoints": 4, "maxd": 3, "X": 100000, "B": 9, "halves": 1, "_wall": 1700})],
+    anchors=["SymEngine::generate_fdiff_weights_vector"],
+    bounds="grids of 3 (4) distinct points from {-2..2} (thorough: also the half-integer grids), every grid enumerated; centre x0 a symbolic integer |x0|<=20 (1e5) and test polynomial of degree < grid size with symbolic integer coefficients |a|<=2 (9): sum_j w_kj p(g_j) == p^(k)(x0) exactly for k <= 2 (3)",
+    outside=["symbolic (Symbol) grid points", "rational centres", "grids of more than 4 points"],
+)
+
+CHECKS["C30"] = dict(
+    src="C30.cpp", level="model_checking",
+    entries=[
+        dict(name="harness_c30_poly", quick={"B": 3, "maxdeg": 2}, thorough={"B": 8, "maxdeg": 2}),
+        dict(name="harness_c30_linsolve", quick={"B": 2}, thorough={"B": 4}),
+    ],
+    anchors=["SymEngine::solve(", "SymEngine::solve_poly_linear", "SymEngine::solve_poly_quadratic", "SymEngine::linsolve"],
+    bounds="linear and quadratic equations c2 x^2 + c1 x + c0 with c1, c2 enumerated in [-3,3] ([-8,8]), c2 != 0, and a symbolic constant term |c0|<=9 (64): every returned element is a root (substituted and expanded exactly, radicals included), the number of solutions matches the discriminant, Vieta's sum; 2x2 linear systems with symbolic integer entries |a|<=2 (4), non-singular",
+    outside=["cubic and quartic formulas", "solve_trig", "rational coefficients", "singular linear systems"],
+)
+
+CHECKS["C31"] = dict(
+    src="C31.cpp", level="model_checking",
+    entries=[dict(name="harness_c31", quick={"order": 5, "B": 2}, thorough={"order": 7, "B": 5, "_wall": 1700})],
+    anchors=["SymEngine::series(", "SymEngine::UnivariateSeries", "SymEngine::SeriesBase"],
+    bounds="f(c1 x + c2 x^2) for f in {exp, log(1+.), sin/cos, tan, atan, sinh/cosh, 1/(1+.), sqrt(1+.), (1+.)^3 exp} with c1 a symbolic integer |c1|<=2 (5) and c2 from {0,1,-2,3}, order 5 (7): the returned coefficients satisfy the defining differential/functional equation of each function as exact coefficient identities (exact rational arithmetic)",
+    outside=["asin, lambertw, series reversion", "rational inner coefficients", "orders above 7"],
+)
